@@ -214,6 +214,13 @@ pub fn run(ctx: &mut Ctx) {
     let n_gram = ctx.share(ctx.tier.pick(80_000, 2_000_000));
     let strat = (grammar_strategy(cfg.clone()), proptest::collection::vec(spec_strategy(), 25));
     ctx.run_prop(n_gram, 1, strat, |ctx, (g, specs)| check_case(ctx, g, specs));
+    // stack-heavy stream: nested snapshots, pops across snapshot lines, failing alternatives after pops
+    let n_stack = ctx.share(ctx.tier.pick(40_000, 1_000_000));
+    let strat = (stack_heavy_grammar(), proptest::collection::vec(spec_strategy(), 16));
+    ctx.run_prop(n_stack, 3, strat, |ctx, (g, specs)| {
+        ctx.class("stream:stack-heavy");
+        check_case(ctx, g, specs)
+    });
     // exhaustive block: all strings <= k over (up to 5 symbols of) the grammar's alphabet
     let n_ex = ctx.share(ctx.tier.pick(4_000, 60_000));
     let k = ctx.tier.pick(3, 4);
